@@ -29,9 +29,9 @@ from mc.checks.mcutil import tj, fj
 PROPERTY = "C22"
 LEVEL = "model_checking"
 RULE = (
-    "16 start problems (Problem / ContingentProblem / HierarchicalProblem / MultiAgentProblem x feature "
+    "17 start problems (Problem / ContingentProblem / HierarchicalProblem / MultiAgentProblem x feature "
     "sets: timed assignment, timed increase, timed goal, durative action, trajectory constraint, "
-    "action-cost metric, initial defaults, explicit initial values, action increase, event, epsilon); "
+    "action-cost metric, initial defaults, explicit initial values, action increase, conditional timed / action effects, event, epsilon); "
     "BFS over edit sequences from an 18-edit alphabet (11 for multi-agent) applied to both sides (length "
     "<= LB) or, after a both-prefix, to one side only (total length <= LO), the deepest level restricted "
     "to the 10 edits that touch conflict bookkeeping / metrics / initial values; de-duplicated by the pair "
@@ -64,6 +64,7 @@ REPS = [
     ("MA", ()),
     ("MA", ("defaults", "ainc", "agentgoal", "init")),
     ("Problem", ("costs", "dur", "ainc")),
+    ("Problem", ("tcond", "acond")),  # conditional timed / action effects are exempt from the conflict bookkeeping
 ]
 
 EDITS = [
@@ -157,6 +158,9 @@ def build(cls, feats, env):
     a.add_effect(b, True)
     if "ainc" in feats:
         a.add_increase_effect(x, 1)
+    if "acond" in feats:
+        a.add_effect(x, 2, condition=em.FluentExp(b))
+        a.add_increase_effect(y, 1, condition=em.FluentExp(b))
     P.add_action(a)
     P.add_goal(b)
     if "init" in feats:
@@ -166,6 +170,9 @@ def build(cls, feats, env):
         P.add_timed_effect(GST(1), y, 2)
     if "tinc" in feats:
         P.add_increase_effect(GST(1), x, 1)
+    if "tcond" in feats:
+        P.add_timed_effect(GST(1), y, 2, condition=em.FluentExp(b))
+        P.add_increase_effect(GST(1), x, 1, condition=em.FluentExp(b))
     if "tgoal" in feats:
         P.add_timed_goal(ClosedTimeInterval(GST(1), GST(2)), b)
     if "dur" in feats:
